@@ -18,6 +18,7 @@ import (
 //	one()       returns 1
 //	two()       returns (1, 2)
 //	id(x)       returns x
+//	raw(...)    hand-written check that accepts anything; returns nothing
 var (
 	v2VarParams = []*v2.Param{{Name: "args", Variable: true}}
 	v2IDParams  = []*v2.Param{{Name: "x"}}
@@ -74,6 +75,13 @@ func V2Fns() map[string]*v2.Fn {
 				}
 				return nil
 			},
+		},
+		// raw(...): a function whose hand-written check looks at nothing (it does not go through
+		// CheckPassParam, so the call is never normalised) and whose body ignores its arguments
+		"raw": {
+			Desc:      v2.FnDesc{Name: "raw", Params: v2VarParams},
+			CallCheck: func(ctx *v2.Task, e *ast.CallExpr) *errchain.PlError { return nil },
+			Call:      func(ctx *v2.Task, e *ast.CallExpr) *errchain.PlError { return nil },
 		},
 		"one": {
 			Desc:      v2.FnDesc{Name: "one", Returns: v2AnyRet},
